@@ -45,6 +45,10 @@ def get_inherited(t: Type) -> Type:
         r_base = get_origin(r)
         assert r_base is not None, "Internal error"
 
+        # `class C(Generic[T])` inherits from nothing we can follow.
+        if r_base is typing.Generic:
+            return Any  # type: ignore
+
         # Get us back to typing if this is a common interface.
         # This is not needed in python 3.11 and forward, where
         # collections.abc.X can are all be parameterized.
@@ -87,6 +91,11 @@ def build_type_dict_from_type(t: Type, at_class: Optional[Type] = None) -> Dict[
     generic_type = get_origin(t)
     if generic_type is None:
         if at_class is not None:
+            # A closed subclass, like `class TrackList(MyList[Track])`, fixes the parameters
+            # in its bases.
+            inherited = get_inherited(t) if t is not at_class else Any
+            if inherited is not Any:
+                return build_type_dict_from_type(inherited, at_class)
             raise TypeError(f"Could not find type {str(at_class)} in {str(t)}")
         return {}
 
